@@ -59,7 +59,8 @@ def bool_faults():
 
 
 POSITIONS = ["assign-rhs", "compound-rhs", "call-arg", "if-cond", "elif-cond", "for-cond", "for-init", "for-step", "return", "conc-child", "map-key-assign", "nested-if-in-for",
-             "method-arg", "three-level-arg", "conc-call-arg", "conc-method-arg", "conc-three-level-arg"]
+             "method-arg", "three-level-arg", "conc-call-arg", "conc-method-arg", "conc-three-level-arg",
+             "conc-in-for", "conc-in-if-in-for", "conc-in-if", "conc-in-else"]
 NEEDS_H = ("method-arg", "three-level-arg", "conc-method-arg", "conc-three-level-arg")
 
 
@@ -111,6 +112,16 @@ def place(pos, nf, bf):
         if pos.startswith("conc-"):
             return block([loc, sconc([("asg", assign(("var", "cy"), "=", ("math", mint(1)))), ("call", c)]), fresh(2)])
         return block([loc, scall(c), fresh(2)])
+    if pos in ("conc-in-for", "conc-in-if-in-for", "conc-in-if", "conc-in-else"):
+        # the faulty child's block sits inside another construct, whose own error handling the block's joined error passes through
+        if as_n is None:
+            return None
+        cb = sconc([("asg", assign(("var", "cy"), "=", ("math", mint(1)))), ("asg", assign(("var", "cx"), "=", ("math", as_n)))])
+        true_, false_ = emath(matom(const(kbool(True)))), emath(matom(const(kbool(False))))
+        loop = lambda inner: sfor(assign(("var", "i"), "=", ("math", mint(0))), mk_ecmp("<", emath(mvar("i")), emath(mint(2))), assign(("var", "i"), "+=", ("math", mint(1))), block([fresh(1), inner]))
+        inner = {"conc-in-for": lambda: loop(cb), "conc-in-if-in-for": lambda: loop(sif(true_, block([cb]))), "conc-in-if": lambda: sif(true_, block([cb])),
+                 "conc-in-else": lambda: sif(false_, block([fresh(1)]), [], block([cb]))}[pos]()
+        return block([loc, inner, fresh(2)])
     if pos == "map-key-assign":
         if as_n is None:
             return None
@@ -173,6 +184,19 @@ def make_cases(rng, tier):
     return cases
 
 
+def termination_scenarios():
+    """Loops whose collection GROWS while they run (a worklist): forRange has no iteration cap of its own — it is bounded by
+    the indexes that exist when it starts.  The expectation is stated here (the Coq host model has no growing method):
+    the call returns without error, the body ran once per initial index."""
+    out = []
+    h3 = lambda: inj_struct("h", sl=[4, 5, 6])
+    body1 = block([sforrange("k", "h.SL", block([scall(call("func", "Mark", [("var", "k")])), scall(call("method", "h.PushSL", [("const", kint(9))]))])), scall(call("func", "Mark", [("const", kint(99))]))])
+    out.append(("forrange-over-a-field-that-grows", body1, [h3(), inj_func("Mark")], {"class": "ok", "Mark": 4, "PushSL": 3}))
+    body2 = block([sforrange("k", "h.SL", block([sforrange("j", "h.SL", block([scall(call("method", "h.PushSL", [("const", kint(1))]))]))])), scall(call("func", "Mark", [("const", kint(99))]))])
+    out.append(("nested-forrange-over-a-field-that-grows", body2, [h3(), inj_func("Mark")], {"class": "ok", "Mark": 1, "PushSL": None}))
+    return out
+
+
 def engine_cases(rng, tier):
     from c05 import base
     cases = []
@@ -198,7 +222,7 @@ def engine_cases(rng, tier):
 
 
 RULE = ("(A) rule level: 31 fault classes (type mismatches, missing names / functions / fields, nil pointers, empty and out-of-range containers, wrong key kinds, non-boolean conditions, ! on non-booleans, "
-        "panicking functions and methods, wrong argument counts and kinds, division by zero, no-result calls used as values) x 12 construct positions (assignment and compound-assignment right-hand sides, call arguments, "
+        "panicking functions and methods, wrong argument counts and kinds, division by zero, no-result calls used as values) x 21 construct positions (assignment and compound-assignment right-hand sides, call arguments, "
         "if / else-if / for conditions, for init and step, return expressions, conc children, container element assignments, an if nested in a for), plus forRange operand faults, unbounded and nested unbounded loops, "
         "break / continue outside loops, unassignable targets; the model's predicted outcome (value / error with cited positions) must be what the call returned — a panic or crash never matches. "
         "(B) engine level: every one of the 21 entry points x 5 faulty rule kinds (two panicking shapes, an unbounded loop, a failing statement, a failing return) x 4 positions of the faulty rule x both flags, "
@@ -232,6 +256,26 @@ def main(run):
         run.report(sig, {"text": c["text"], "inject": c["inject"], "rule": c["rule"], "observation": {k: o.get(k) for k in ("class", "ret", "cites", "errmsg", "crash")}, "disagreement": LCODES[code]},
                    "C09: fault '%s' at '%s': %s (observed class=%s%s) — %s" % (c.get("fault"), c.get("position"), LCODES[code], o["class"], " CRASH" if o.get("crash") else "", c["text"].replace("\n", " | ")[:300]))
     escaped = [o for o in obs if o["class"] == "panic" or o.get("crash")]
+    # (A') termination scenarios with driver-stated expectations
+    tcs = []
+    for i, (name, body, inj, exp) in enumerate(termination_scenarios()):
+        c = make_case(90000 + i, body, inj)
+        c["fault"], c["expect"] = name, exp
+        tcs.append(c)
+    tobs = run_lang(tcs, timeout=40)
+    term_bad = 0
+    for c, o in zip(tcs, tobs):
+        exp = c["expect"]
+        counts = {}
+        for call_ in o.get("calls") or []:
+            counts[call_["fn"]] = counts.get(call_["fn"], 0) + 1
+        wrong = o["class"] != exp["class"] or o.get("crash") or any(v is not None and counts.get(fn, 0) != v for fn, v in exp.items() if fn != "class")
+        if wrong:
+            term_bad += 1
+            run.report({"kind": "lang-case", "symptom": "termination", "fault": c["fault"]},
+                       {"text": c["text"], "inject": c["inject"], "rule": c["rule"], "observation": {k: o.get(k) for k in ("class", "errmsg", "crash")}, "calls_seen": counts, "expected": exp,
+                        "disagreement": "a loop over a collection that grows while it runs must visit the indexes present at its start and end"},
+                       "C09: '%s': expected %s, observed class=%s%s calls=%s — %s" % (c["fault"], exp, o["class"], " CRASH/HANG" if o.get("crash") else "", counts, c["text"].replace("\n", " | ")[:300]))
     # (B)
     _ok, diff, _ = engfam.gen_obligation() if ok else (False, [], "")
     ecases = engine_cases(rng, run.tier)
